@@ -6,7 +6,7 @@
    exported for comparison with the real tokenizer. *)
 EXTENDS Lexer, Json, FiniteSets
 
-CONSTANTS MaxFull, MaxCrit
+CONSTANTS MaxFull, MaxCrit, MaxSoup
 VARIABLE sc
 
 Atoms == {<<47, 98, 101, 103, 105, 110>>, <<47, 101, 110, 100>>, <<47, 105, 110, 99, 108, 117, 100, 101>>, <<65, 50, 77, 76>>}
@@ -18,6 +18,12 @@ Bytes(S) == {<<c>> : c \in S}
 Full == Bytes({32, 10, 13, 9, 47, 42, 34, 92, 39, 97, 120, 70, 48, 49, 45, 43, 46, 91, 95, 44}) \cup Atoms \cup NonAscii \cup BeginA2ml
 Crit == Bytes({32, 10, 13, 47, 42, 34, 92, 97, 48}) \cup Atoms \cup BeginA2ml
 
+\* token soups: whole tokens (with a trailing blank) in any order
+Str(s) == s
+Soup == {<<47, 98, 101, 103, 105, 110, 32>>, <<47, 101, 110, 100, 32>>, <<47, 105, 110, 99, 108, 117, 100, 101, 32>>,
+         <<65, 50, 77, 76, 32>>, <<73, 70, 95, 68, 65, 84, 65, 32>>, <<34, 115, 34, 32>>, <<34>>, <<47, 42, 99, 42, 47, 32>>, <<47, 42>>,
+         <<47, 47, 99, 10>>, <<49, 32>>, <<120, 32>>, <<80, 82, 79, 74, 69, 67, 84, 32>>, <<77, 79, 68, 85, 76, 69, 32>>}
+
 RECURSIVE Cat(_)
 Cat(ps) == IF ps = <<>> THEN <<>> ELSE Head(ps) \o Cat(Tail(ps))
 
@@ -25,7 +31,8 @@ Init == sc = [stage |-> 0]
 Next == \/ sc.stage = 0 /\ sc' = [stage |-> 2, bytes |-> <<>>]
         \/ sc.stage = 0 /\ \E n \in 1..MaxFull, f \in Full : sc' = [stage |-> 1, set |-> "full", n |-> n, first |-> f]
         \/ sc.stage = 0 /\ \E n \in (MaxFull + 1)..MaxCrit, f \in Crit : sc' = [stage |-> 1, set |-> "crit", n |-> n, first |-> f]
-        \/ sc.stage = 1 /\ \E ps \in [1..(sc.n - 1) -> (IF sc.set = "full" THEN Full ELSE Crit)] :
+        \/ sc.stage = 0 /\ \E n \in 1..MaxSoup, f \in Soup : sc' = [stage |-> 1, set |-> "soup", n |-> n, first |-> f]
+        \/ sc.stage = 1 /\ \E ps \in [1..(sc.n - 1) -> (IF sc.set = "full" THEN Full ELSE IF sc.set = "crit" THEN Crit ELSE Soup)] :
                sc' = [stage |-> 2, bytes |-> sc.first \o Cat(ps)]
 Spec == Init /\ [][Next]_sc
 
